@@ -21,6 +21,9 @@ LEVEL = "exploration"
 SHARDS = {"quick": 8, "thorough": 16}
 BUDGET = {"quick": 25.0, "thorough": 420.0}
 REQUIRE = {
+    "model:family_metaclass_class_with_ordinary_ancestor_at_depth>=2": 20,
+    "model:family_metaclass_class_with_ordinary_ancestor": 30,
+    "model:family_ordinary_ancestor_classes": 60,
     "gc_core_histories": 450,
     "user_arg_core_histories": 3000,
     "api_calls_under_gc_pressure": 500,
@@ -131,7 +134,10 @@ RULE = (
     "arg, disconnect, connect, emit, gc) INSIDE connect()/disconnect() -- enumerated (2 earlier handlers x op x position x "
     "iterable x API) and random; PLUS class families for the registration clause (MetaSignals classes with list literal / list "
     "object shared between classes / `signals = Other.signals` / no list, 0-2 bases, diamonds, duplicate names, plain classes and "
-    "manual register_signal, directed shapes in several creation orders + random families): after every class creation or "
+    "manual register_signal, ORDINARY (non-metaclass) ancestors carrying `signals` lists at depth 1..3 below a MetaSignals class -- plain "
+    "class shadowing a plain grandparent's list, second mix-in of a list-less plain class, plain diamonds, lists shared between "
+    "ordinary classes, metaclass classes between ordinary layers --, directed shapes in several creation orders (never skipped) + "
+    "random families; expected registered set = union over the whole MRO of every class's own list, order-free): after every class creation or "
     "register call connect() is probed for every (class so far, name in {a,b,c,d,7,nope}); PLUS refcount-only lifetime "
     "cases (cyclic gc disabled, cycle-free senders {plain, falsy, MetaSignals subclass, int-named} and callbacks {function, object, "
     "bound method} that never refer to the sender): every connection shape {none,u,uu,d,ud,w,ww,www,wu,wwuu,wd,wud} x {connected, "
@@ -1631,6 +1637,7 @@ def family_case(desc):
     events = []
     lists = {}
     labels = []
+    mixins = set()
     cls_of = {}
     inst = {}
     nstep = 0
@@ -1675,6 +1682,34 @@ def family_case(desc):
                 created.append(cls)
                 inst[c] = cls()
                 events.append({"t": "class", "c": c, "bases": list(bases), "own": own, "base_attr": base_attr, "list": label, "how": spec[0]})
+            elif k == "mixin":
+                # an ORDINARY class (no metaclass) that may carry a `signals` list: ancestors of MetaSignals classes
+                _, c, bases, spec = st
+                if c in cls_of or any(b not in cls_of or b not in mixins for b in bases):
+                    continue
+                ns = {}
+                if spec[0] == "lit":
+                    ns["signals"] = list(spec[1])
+                elif spec[0] == "shared":
+                    if spec[1] not in lists:
+                        continue
+                    ns["signals"] = lists[spec[1]]
+                label = None
+                if "signals" in ns:
+                    label = next((lb for lb, obj in labels if obj is ns["signals"]), None)
+                    if label is None:
+                        label = f"list{len(labels)}"
+                        labels.append((label, ns["signals"]))
+                own = list(ns["signals"]) if "signals" in ns else None
+                try:
+                    cls = type(c, tuple(cls_of[b] for b in bases), ns)
+                except TypeError:
+                    continue
+                mixins.add(c)
+                cls_of[c] = cls
+                created.append(cls)
+                inst[c] = cls()
+                events.append({"t": "mixin", "c": c, "bases": list(bases), "own": own, "list": label})
             elif k == "plain":
                 c = st[1]
                 if c in cls_of:
@@ -1732,6 +1767,22 @@ def family_directed():
                     yield {"steps": [*pre, a, b, ["class", "SubA", ["A"], ["lit", ["d"]]]]}
                 elif share != "alias":
                     yield {"steps": [*pre, b, a]}
+    # ordinary (non-metaclass) ancestors at depth >= 2 below a MetaSignals class, in several shapes and creation orders
+    m1 = ["mixin", "M1", [], ["lit", ["a"]]]
+    for m2spec in (["lit", ["b"]], ["absent"], ["lit", []]):
+        for wspec in (["lit", ["c"]], ["absent"]):
+            yield {"steps": [m1, ["mixin", "M2", ["M1"], m2spec], ["class", "W", ["M2"], wspec], ["class", "Sub", ["W"], ["lit", ["d"]]]]}
+            yield {"steps": [m1, ["mixin", "M2", ["M1"], m2spec], ["mixin", "M3", ["M2"], ["absent"]], ["class", "W", ["M3"], wspec]]}
+    # the second mix-in of a plain intermediate class without a list of its own
+    yield {"steps": [m1, ["mixin", "M2", [], ["lit", ["b"]]], ["mixin", "Mixed", ["M1", "M2"], ["absent"]], ["class", "W", ["Mixed"], ["lit", ["c"]]]]}
+    yield {"steps": [m1, ["mixin", "M2", [], ["lit", ["b"]]], ["mixin", "Mixed", ["M2", "M1"], ["lit", [7]]], ["class", "W", ["Mixed"], ["absent"]]]}
+    # a plain class shadowing its plain grandparent's list; plain diamond; list objects shared between ordinary classes
+    yield {"steps": [["mixin", "G", [], ["lit", ["a"]]], ["mixin", "P", ["G"], ["lit", ["b"]]], ["mixin", "C", ["P"], ["absent"]], ["class", "W", ["C"], ["absent"]], ["class", "V", ["C"], ["lit", ["a", "d"]]]]}
+    yield {"steps": [["mixin", "R", [], ["lit", ["a"]]], ["mixin", "L1", ["R"], ["lit", ["b"]]], ["mixin", "L2", ["R"], ["lit", ["c"]]], ["mixin", "D", ["L1", "L2"], ["absent"]], ["class", "W", ["D"], ["lit", ["d"]]], ["mixin", "X", [], ["lit", [7]]], ["class", "W2", ["W", "X"], ["absent"]]]}
+    yield {"steps": [["list", 0, ["a"]], ["mixin", "M1", [], ["shared", 0]], ["mixin", "M2", ["M1"], ["shared", 0]], ["mixin", "N", [], ["lit", ["b"]]], ["mixin", "M3", ["M2", "N"], ["absent"]], ["class", "W", ["M3"], ["shared", 0]], ["class", "A", [], ["shared", 0]]]}
+    # metaclass base next to an ordinary chain, and a metaclass class between two ordinary layers
+    yield {"steps": [["class", "B", [], ["lit", ["a"]]], ["mixin", "M", [], ["lit", ["b"]]], ["mixin", "N", ["M"], ["lit", ["c"]]], ["class", "W", ["B", "N"], ["absent"]], ["class", "W2", ["N", "B"], ["lit", ["d"]]]]}
+    yield {"steps": [["mixin", "M", [], ["lit", ["b"]]], ["mixin", "N", ["M"], ["lit", ["c"]]], ["class", "W", ["N"], ["lit", ["a"]]], ["mixin", "O", [], ["lit", ["d"]]], ["mixin", "Q", ["O"], ["absent"]], ["class", "Z", ["W", "Q"], ["absent"]]]}
     # diamonds, duplicates, absent bodies, manual registration
     yield {"steps": [["class", "R", [], ["lit", ["a", "a", "b"]]], ["class", "L1", ["R"], ["lit", ["c"]]], ["class", "L2", ["R"], ["lit", ["d", "a"]]], ["class", "D", ["L1", "L2"], ["lit", [7, 7]]]]}
     yield {"steps": [["class", "R", [], ["lit", ["a"]]], ["class", "L1", ["R"], ["absent"]], ["class", "L2", ["R"], ["lit", ["d"]]], ["class", "D", ["L1", "L2"], ["absent"]], ["class", "E", ["D"], ["lit", ["c"]]]]}
@@ -1752,7 +1803,14 @@ def rand_family(rng):
             steps.append(["plain", c])
             names.append(c)
             continue
-        metas = [n for n in names if ["plain", n] not in steps]
+        if rng.random() < 0.3:
+            mx = [st[1] for st in steps if st[0] == "mixin"]
+            r = rng.random()
+            spec = ["lit", [rng.choice(["a", "b", "c", "d", 7]) for _ in range(rng.randint(0, 2))]] if r < 0.55 else (["shared", rng.randrange(2)] if r < 0.7 else ["absent"])
+            steps.append(["mixin", c, rng.sample(mx, min(len(mx), rng.choice([0, 1, 1, 2]))), spec])
+            names.append(c)
+            continue
+        metas = [n for n in names if ["plain", n] not in steps]  # possible bases: metaclass classes and ordinary mix-ins
         bases = rng.sample(metas, min(len(metas), rng.choice([0, 0, 1, 1, 1, 2, 2]))) if metas else []
         r = rng.random()
         if r < 0.35:
